@@ -263,7 +263,12 @@ pub fn run_shared(g: &FnGraph<TFn>, rs: &RunSpec, tape: &mut Tape) -> Trace {
     let (tx, rx) = sig_channel(rs);
     let sh = RunState::new(n, rs, tx);
     if rs.api.is_stream() {
-        let stream = crate::apis::start_stream(rs, g, rx);
+        let stream = match std::panic::catch_unwind(std::panic::AssertUnwindSafe(|| crate::apis::start_stream(rs, g, rx))) {
+            Ok(s) => s,
+            Err(p) => {
+                return Trace { term: Term::Panicked(format!("creating the stream: {}", crate::director::panic_msg(p))), result: None, log: vec![crate::director::Ev::Panic], quiescent: 0, polls: 0, runs_after: None };
+            }
+        };
         let mut d = StreamDriver::new(stream, sh.clone(), rs, tape);
         d.run(tape);
         let (term, polls, idle) = (d.term.clone().unwrap(), d.polls, d.idle_points);
@@ -382,6 +387,118 @@ pub fn runtime_case(g: &mut FnGraph<TFn>, rs: &RunSpec) -> Trace {
         log.push(crate::director::Ev::Ready);
     }
     Trace { term, result, log, quiescent: 0, polls, runs_after }
+}
+
+/// Consumes one of the `stream*()` entry points inside a real tokio current-thread runtime,
+/// holding at most `hold` FnRefs at a time (0 = drop each one before asking for the next, which
+/// never yields to the runtime and therefore exhausts tokio's cooperative budget on wide graphs).
+/// A stall is decided logically: 3 consecutive polls with "stream pending, nothing held, no
+/// wake-up through the waker we handed down".
+pub fn runtime_stream_case(g: &FnGraph<TFn>, rs: &RunSpec, hold: usize) -> Trace {
+    use crate::director::{Ev, SItem};
+    let (tx, rx) = sig_channel(rs);
+    let n = g.graph.node_count();
+    let sh = RunState::new(n, rs, tx);
+    if rs.signal == crate::spec::SignalPlan::BeforeCall {
+        sh.borrow_mut().send_signal();
+    }
+    let rt = tokio::runtime::Builder::new_current_thread().build().expect("runtime");
+    let stream = match std::panic::catch_unwind(std::panic::AssertUnwindSafe(|| crate::apis::start_stream(rs, g, rx))) {
+        Ok(s) => s,
+        Err(p) => {
+            return Trace { term: Term::Panicked(format!("creating the stream: {}", crate::director::panic_msg(p))), result: None, log: vec![Ev::Panic], quiescent: 0, polls: 0, runs_after: None };
+        }
+    };
+    struct Consumer<'g> {
+        stream: Option<crate::director::BoxStream<'g>>,
+        held: std::collections::VecDeque<(u32, FnRef<'g, TFn>)>,
+        hold: usize,
+        count: Arc<AtomicU64>,
+        seen: u64,
+        idle: u32,
+        sh: Shared,
+        done: Arc<AtomicBool>,
+    }
+    impl<'g> Future for Consumer<'g> {
+        type Output = Result<(), String>;
+        fn poll(mut self: Pin<&mut Self>, cx: &mut Context<'_>) -> Poll<Self::Output> {
+            let this = &mut *self;
+            let w = Waker::from(Arc::new(CountWaker { inner: cx.waker().clone(), count: this.count.clone() }));
+            let mut icx = Context::from_waker(&w);
+            loop {
+                this.sh.borrow_mut().log.push(Ev::Poll);
+                match this.stream.as_mut().unwrap().as_mut().poll_next(&mut icx) {
+                    Poll::Ready(Some(item)) => {
+                        this.idle = 0;
+                        match item {
+                            SItem::Plain(r) => {
+                                let f = r.idx as u32;
+                                this.sh.borrow_mut().log.push(Ev::Yield(f));
+                                this.held.push_back((f, r));
+                            }
+                            SItem::IntrSome(r) => {
+                                let f = r.idx as u32;
+                                this.sh.borrow_mut().log.push(Ev::YieldIntr(f));
+                                this.held.push_back((f, r));
+                            }
+                            SItem::IntrNone => this.sh.borrow_mut().log.push(Ev::IntrNone),
+                        }
+                        while this.held.len() > this.hold {
+                            let (f, r) = this.held.pop_front().unwrap();
+                            drop(r);
+                            this.sh.borrow_mut().log.push(Ev::RefDrop(f, true));
+                        }
+                    }
+                    Poll::Ready(None) => {
+                        this.sh.borrow_mut().log.push(Ev::StreamNone);
+                        while let Some((f, r)) = this.held.pop_front() {
+                            drop(r);
+                            this.sh.borrow_mut().log.push(Ev::RefDrop(f, true));
+                        }
+                        this.stream = None;
+                        this.done.store(true, Ordering::SeqCst);
+                        return Poll::Ready(Ok(()));
+                    }
+                    Poll::Pending => {
+                        this.sh.borrow_mut().log.push(Ev::Pending { woken: true });
+                        if let Some((f, r)) = this.held.pop_front() {
+                            drop(r);
+                            this.sh.borrow_mut().log.push(Ev::RefDrop(f, true));
+                            this.idle = 0;
+                            continue;
+                        }
+                        let now = this.count.load(Ordering::SeqCst);
+                        if now == this.seen {
+                            this.idle += 1;
+                        } else {
+                            this.idle = 0;
+                        }
+                        this.seen = now;
+                        if this.idle >= 3 {
+                            this.done.store(true, Ordering::SeqCst);
+                            return Poll::Ready(Err("stream pending on 3 consecutive polls with nothing held and no wake-up".into()));
+                        }
+                        return Poll::Pending;
+                    }
+                }
+            }
+        }
+    }
+    let done = Arc::new(AtomicBool::new(false));
+    let cons = Consumer { stream: Some(stream), held: Default::default(), hold, count: Arc::new(AtomicU64::new(0)), seen: 0, idle: 0, sh: sh.clone(), done: done.clone() };
+    let ticker = async {
+        while !done.load(Ordering::SeqCst) {
+            tokio::task::yield_now().await;
+        }
+    };
+    let r = std::panic::catch_unwind(std::panic::AssertUnwindSafe(|| rt.block_on(async { futures::join!(cons, ticker).0 })));
+    let term = match r {
+        Ok(Ok(())) => Term::Returned,
+        Ok(Err(_)) => Term::Stalled,
+        Err(p) => Term::Panicked(crate::director::panic_msg(p)),
+    };
+    let log = std::mem::take(&mut sh.borrow_mut().log);
+    Trace { term, result: None, log, quiescent: 0, polls: 0, runs_after: None }
 }
 
 // ---------------------------------------------------------------------------------- multi-thread runtime (C19 in-family part)
